@@ -138,3 +138,15 @@ pub fn guarded<R>(f: impl FnOnce() -> R) -> Result<R, String> {
         }
     }
 }
+
+// ---------------------------------------------------------------------------------------------
+/// Is the run under an interpreter with borrow tracking (Stacked Borrows) switched on? The inline backends trip the
+/// borrow models on the unchanged tree (DESIGN.md 1.8, outside the properties), so operations that create an inline-backed
+/// vector inside a pointer-backed configuration are skipped in such runs.
+static BORROW_TRACKING: std::sync::atomic::AtomicBool = std::sync::atomic::AtomicBool::new(false);
+pub fn set_borrow_tracking(on: bool) {
+    BORROW_TRACKING.store(on, std::sync::atomic::Ordering::Relaxed);
+}
+pub fn borrow_tracking() -> bool {
+    BORROW_TRACKING.load(std::sync::atomic::Ordering::Relaxed)
+}
